@@ -104,6 +104,29 @@ CHECKS.update({
         ref='DESIGN.md 2/C13'),
 })
 
+CHECKS.update({
+    'C14': dict(
+        technique='static analysis: effect classification (accumulate vs key-overwriting store) of the flow from per-CELL results to DelayFile, grammar<->transformer agreement on the lark-compiled SDF grammar, sibling comparison of the two annotation methods, slot checks of the polarity table and pin lookups',
+        text='Decides "none is lost" structurally: since the compiled grammar admits repeated CELL blocks and an optional instance id, the only sound collection is an accumulating one; plus arity/kind/exhaustiveness of all SDF callbacks, the edge-qualifier polarity table, empty-triple handling twins, array shape/axis constants and pin->line lookups.',
+        note='NOT decided: value-level landing of each entry for arbitrary files; escaped-name handling beyond the replace() calls present.',
+        ref='DESIGN.md 2/C14'),
+    'C15': dict(
+        technique='static analysis: folding of the interpret() if-chain into a finite alias map compared with the documented contract and the render string; attribute-existence check of every np.* reference against dir(numpy) of the repository environment; constant agreement (bitorder, plane count, axes) across all pack/unpack sites',
+        text='Decides the character-table round trip for all eight values and every documented alias, that no removed numpy attribute is referenced anywhere in the package, and that all bit (un)packing sites share one bit order and the three-plane convention used by the bit-parallel operators.',
+        note='NOT decided: losslessness for all shapes/pattern counts, padding lanes, signed-dtype padding, popcount on arbitrary arrays (numpy shape/view semantics).',
+        ref='DESIGN.md 2/C15'),
+    'C18': dict(
+        technique='static analysis: single-source rule for the port/state ordering (whole package), sibling comparison of the scan-load blocks, loop-shape rules of StilFile._maps, exhaustive 8x8 truth table of mv_transition by abstract interpretation, grammar<->transformer agreement on the STIL grammar',
+        text='Decides the necessary structural conditions of chain-order and inversion handling (reversed pass fills scan map and scan-out inversions, forward pass reversed once, "!" toggles), one ordering source (Circuit.s_nodes), twin assembly blocks, the full transition table and STIL callback agreement.',
+        note='NOT decided: per-character placement for arbitrary chains and pattern sets, launch/capture call sequencing, signal-group order.',
+        ref='DESIGN.md 2/C18'),
+    'C20': dict(
+        technique='static analysis: grammar<->transformer agreement over the lark-compiled DEF grammar with keyword-conditional arity/kind analysis, option-keyword agreement, may-be-None / may-be-missing attribute flow lint on the public properties, x/y symmetry and special/regular twin comparison by renaming',
+        text='Decides for all 36 grammar rules that every handler reads positions and kinds the grammar can actually deliver (per dispatched keyword), that option names compared/stored exist in the grammar, that the public wire/via properties cannot hit None or a missing attribute and resolve wildcards, and that via expansion is symmetric in x and y.',
+        note='NOT decided: value fidelity for arbitrary files; lexer ambiguities (ID vs NUMBER priority).',
+        ref='DESIGN.md 2/C20'),
+})
+
 NOT_YET = {
 }
 
